@@ -47,7 +47,9 @@ def gen_cases(tier, seed):
     add(mol="oh", basis="sto-3g", mf="rohf", frozen=1, trial="uhf", wt="uhf", fci=True)
     add(mol="oh", basis="sto-3g", mf="rohf", frozen=1, custom_basis=True, trial="uhf", wt="uhf")
     add(mol="h4ring", basis="sto-3g", mf="rhf", custom_basis=True, trial="rhf", wt="rhf", fci=True)
-    add(mol="h4", basis="sto-3g", mf="rhf", df=True, trial="rhf", wt="rhf")
+    add(mol="h4", basis="sto-3g", mf="rhf", df=True, trial="rhf", wt="rhf", chol_cut=1e-8)
+    add(mol="h4", basis="sto-3g", mf="rhf", df="dict-basis", trial="rhf", wt="rhf", chol_cut=1e-8)
+    add(mol="h4ring", basis="sto-3g", mf="uhf", df="user-df", trial="uhf", wt="uhf", chol_cut=1e-8)
     add(mol="h4", basis="sto-3g", mf="rhf", cc=True, trial="cisd", wt="rhf")
     add(mol="lih", basis="sto-3g", mf="rhf", cc=True, frozen=1, trial="cisd", wt="rhf")
     add(mol="oh", basis="sto-3g", mf="uhf", cc=True, trial="ucisd", wt="uhf")
@@ -151,7 +153,20 @@ def _build_mf(case, rng):
     mol = _molecule(case, rng)
     mf = {"rhf": scf.RHF, "rohf": scf.ROHF, "uhf": scf.UHF}[case["mf"]](mol)
     if case.get("df"):
-        mf = mf.density_fit()
+        if case.get("df") == "dict-basis":
+            # basis given per element: pyscf then resolves the auxiliary basis itself and with_df.auxbasis stays None
+            mol = mol.copy()
+            mol.basis = {"H": mol.basis if isinstance(mol.basis, str) else "sto-3g"}
+            mol.build()
+            mf = {"rhf": scf.RHF, "rohf": scf.ROHF, "uhf": scf.UHF}[case["mf"]](mol)
+            mf = mf.density_fit()
+        elif case.get("df") == "user-df":
+            from pyscf import df as pdf
+
+            mf = mf.density_fit()
+            mf.with_df = pdf.DF(mol)   # a user-made fitting object handed to the mean field (its auxbasis attribute stays None)
+        else:
+            mf = mf.density_fit()
     mf.conv_tol = 1e-11
     if case.get("field"):
         # a mean-field object with its own core Hamiltonian (static electric field along z, as pyscf users add it): the written one-body
